@@ -7,14 +7,16 @@
     [conf_ty] (Roundtrip.v) the decidable well-formedness of a value: right shape, elements the
     encoder omits hold the zero value, generic trees carry the tag of their position.
 
-    STATUS: the theorems below are the FULL property for every type whose codec is the
-    reflective one (the header, 50 of the 54 payload types, attribute value structures,
-    objects without key block ...), at every version, for ANY schema; [conf_ty] does not yet
-    accept the ten types with hand-written codecs (batch items, Credential, KeyBlock family,
-    Attribute, Get/Register/Import/Export payloads), so whole messages are covered by the
-    correspondence run and not yet by the theorem: see [C01_full] and DESIGN.md. *)
+    STATUS: the theorems below are the property for ANY schema, any reader format and every
+    conforming value, including the ten types with hand-written codecs (batch items with the
+    operation payload picked by operation and direction or kept opaque, Credential, KeyBlock /
+    KeyValue / PlainKeyValue / KeyMaterial, Attribute, Get / Register / Export / Import payloads
+    with their managed object): [conf_ty] dispatches to [conf_custom_of] for them
+    (RtRequestItem.v ... RtImportRequest.v, assembled in RoundtripCustoms.v).  "Well-formed
+    message" of the property is [conf_ty]; it is decidable, and every run checks that the
+    messages of the coverage plan satisfy it (row_conf), so the hypothesis is not vacuous. *)
 From Coq Require Import ZArith List Bool String.
-From KV Require Import Base Wire Cursor BinCursorProofs Schema SchemaSem FaithfulProofs Roundtrip RoundtripProofs RoundtripCustoms KmipCodec KmipRoundtrip.
+From KV Require Import Base Wire Cursor BinCursorProofs Schema SchemaSem FaithfulProofs Roundtrip RoundtripProofs RoundtripCustoms KmipCodec KmipRoundtrip RtExamples.
 From KVGen Require Import KmipSchema.
 Import ListNotations.
 Open Scope Z_scope.
@@ -48,7 +50,7 @@ Print Assumptions C01_struct_roundtrip.
 (** Composed with the binary layer: bytes -> value, nothing dropped, added or altered, every
     byte consumed.  (Re-encoding the decoded value gives the identical bytes because it IS
     the original value and the encoder is a function.) *)
-Theorem C01_roundtrip_partial :
+Theorem C01_roundtrip :
   forall (S : schema) OPS ATTRS OBJS fe fc st t tag v items st' sc,
   enc_ty S fe st t tag v = Ok (items, st') -> conf_ty S OPS ATTRS OBJS fc st t tag v = Some sc ->
   forallb item_ok items = true -> forallb item_small items = true -> lookahead t = false ->
@@ -56,7 +58,7 @@ Theorem C01_roundtrip_partial :
     forall fd, (fe + 2 * items_size items + 2 <= fd)%nat ->
       dec_ty S OPS ATTRS OBJS bin_fmt fd st t tag c = Ok (v, ([], false), st').
 Proof. exact bin_roundtrip. Qed.
-Print Assumptions C01_roundtrip_partial.
+Print Assumptions C01_roundtrip.
 
 (** On the schema regenerated from /repo: every structure decoded reflectively is
     unambiguous (an element that may be absent never shares its tag with a later one). *)
@@ -64,11 +66,18 @@ Theorem C01_kmip_schema_unambiguous : reflective_unambiguous kmip_schema = true.
 Proof. exact kmip_reflective_unambiguous. Qed.
 Print Assumptions C01_kmip_schema_unambiguous.
 
-(** The full statement, for whole messages (not yet proved for the hand-written codecs). *)
-Definition C01_full : Prop :=
-  forall root v bytes, (root = "kmip.RequestMessage" \/ root = "kmip.ResponseMessage")%string ->
-    kmip_marshal root v = Ok bytes -> (exists sc, conf_ty kmip_schema kmip_ops kmip_attrs kmip_objs FUEL None (TNamed root) 0 v = Some sc) ->
-    kmip_unmarshal root bytes = Ok v.
+(** Whole messages at the schema regenerated from /repo: encoding a conforming request or
+    response message and handing the bytes to the executable unmarshal (the one the
+    correspondence compares with ttlv.UnmarshalTTLV) returns the message. *)
+Theorem C01_kmip_message_roundtrip : forall root d v fe fc items st' sc,
+  find_tdef kmip_schema root = Some d ->
+  enc_ty kmip_schema fe None (TNamed root) (t_deftag d) v = Ok (items, st') ->
+  conf_ty kmip_schema kmip_ops kmip_attrs kmip_objs fc None (TNamed root) (t_deftag d) v = Some sc ->
+  forallb item_ok items = true -> forallb item_small items = true ->
+  (fe + 2 * items_size items + 2 <= FUEL)%nat ->
+  kmip_unmarshal root (wire_enc_list items) = Ok v.
+Proof. exact kmip_message_roundtrip. Qed.
+Print Assumptions C01_kmip_message_roundtrip.
 
 (** Non-vacuity: a real request header (version 1.4, gated correlation value, optional
     pointers) conforms, and its encoding decodes back to it. *)
@@ -82,3 +91,11 @@ Example C01_example :
    do d <- dec_ty kmip_schema kmip_ops kmip_attrs kmip_objs bin_fmt 60 None (TNamed "kmip.RequestHeader") 4325495 c ;;
    Ok (value_eqb (fst (fst d)) ex_header)) = Ok true.
 Proof. split; [eexists; vm_compute; reflexivity | vm_compute; reflexivity]. Qed.
+
+(** ... and a whole request message (credential in the header, an Import batch item carrying a
+    symmetric key with attributes, a message extension) conforms and round-trips through the
+    executable marshal / unmarshal. *)
+Example C01_message_example :
+  (exists sc, conf_ty kmip_schema kmip_ops kmip_attrs kmip_objs 60 None (TNamed "kmip.RequestMessage") 4325496 ex_message = Some sc) /\
+  (do b <- kmip_marshal "kmip.RequestMessage" ex_message ;; do v <- kmip_unmarshal "kmip.RequestMessage" b ;; Ok (value_eqb v ex_message)) = Ok true.
+Proof. exact ex_message_roundtrip. Qed.
